@@ -53,9 +53,12 @@ CHECKS = {
              "bridge, also unbounded: array-form contracts of append_blank / append_leader / append_data_blocks (recursion through its "
              "own contract) and the proof that every instance of read_file's pre-condition holds for the buffer add_file produces (block "
              "positions in closed form), for any data length >= 1 and any buffer it is appended to.  The cassette writer's format with "
-             "check sums is C14.  NOT machine-checked: the induction over the number of files in add_files / list_files (per-file step "
-             "only).  BOUNDED stand-in for it: round trips with file count <= 3, enumerated data lengths (every length 0..765 thorough), "
-             "symbolic contents / addresses / names, foreign streams.", "DESIGN 4 C06, 12.6, 12.9", TECHB),
+             "check sums is C14.  Step of the induction over the number of files, also machine-checked: add_file leaves the prior buffer "
+             "untouched and ends exactly at the new length (bridge), and every instance kind of read_file's pre-condition is stable under "
+             "extension of the buffer (ghost-level lemma over the same formulas, with a satisfiability guard); add_files / list_files are "
+             "folds of add_file / read_file (C14, tape_reader).  The two-line composition of these lemmas into the statement for all K is "
+             "on paper (DESIGN 12.14).  BOUNDED, in addition: round trips with file count <= 3, enumerated data lengths (every length "
+             "0..765 thorough), symbolic contents / addresses / names, foreign streams.", "DESIGN 4 C06, 12.6, 12.9, 12.14", TECHB),
     "C07": C("other", "Unbounded, writer side: geometry and length arithmetic for all granules / lengths; write_bytes_to_buffer, write_dir_entry, "
              "preamble / postamble read + write, write_to_fat (chains of any length), write_to_granules (any length, any chain of distinct "
              "granules, any contents: stream in chain order, by recursion through its own contract, both parameter shapes) and the add_file "
@@ -114,8 +117,13 @@ CHECKS = {
     "C18": C("other", "Relocation by self-composition with BOTH origins symbolic (all origin pairs on one side of $100): lengths equal, addresses "
              "shift by D, relative/constant bytes equal, absolute operands shift by exactly D -- proved per statement kind.  Renaming, "
              "reformatting and suffix-append relations are a bounded stand-in over a program corpus.", "DESIGN 4 C18, 12", TECHB),
-    "C19": C("other", "BOUNDED stand-in: every corpus program split at statement boundaries into including / included files (also nested to depth 3, "
-             "middle third) must equal the spliced program in image, addresses and symbols; missing file and cycles must be diagnostics.",
+    "C19": C("other", "Unbounded contracts on the two functions that implement inclusion, over abstract line / statement lists of ANY length (z3 Seq "
+             "theory): Program.parse returns the left fold of the kept statements (order kept, nothing dropped or duplicated, input untouched) and "
+             "Program.process_mnemonics returns the left fold that puts flat(parse(file)) exactly where the INCLUDE stood (recursion through its own "
+             "contract; the invariant is about the RETURNED list).  BOUNDED stand-in for the composed statement: every corpus program split at "
+             "statement boundaries into including / included files (nested to depth 3, middle third, the same file twice, included files with no "
+             "statements in every neighbourhood) must equal the spliced program in image, addresses and symbols; missing file and cycles must be "
+             "diagnostics (refuted on the tree: known findings).",
              "DESIGN 4 C19, 12", TECHB),
 }
 
